@@ -25,6 +25,24 @@ from .oracles.elements import Z as Z_OF, SYMBOL as SYM_OF
 SHADOW_MAX_N = 120  # shadow executions are skipped (and counted) above this size
 
 
+class Keys:
+    """Public attribute names; read from tucan.graph_attributes at install time (fallback: today's literals)."""
+    PARTITION, INVARIANT_CODE, MASS, RAD, CHG, ELEMENT_SYMBOL, ATOMIC_NUMBER, EXPLORED, BOND_TYPE = (
+        "partition", "invariant_code", "mass", "rad", "chg", "element_symbol", "atomic_number", "explored", "bond_type")
+
+    @classmethod
+    def load(cls):
+        try:
+            import tucan.graph_attributes as ga
+            for name in ("PARTITION", "INVARIANT_CODE", "MASS", "RAD", "CHG", "ELEMENT_SYMBOL", "ATOMIC_NUMBER", "EXPLORED", "BOND_TYPE"):
+                setattr(cls, name, getattr(ga, name, getattr(cls, name)))
+        except Exception:
+            pass
+
+
+K = Keys
+
+
 class State:
     ctx = None
     orig = {}
@@ -35,7 +53,8 @@ class State:
     installed = False
     k_relabel = 2
     recorded = []  # record mode
-    lib_keys = {"partition"}  # node attributes that are the library's own bookkeeping (calibrated at install time)
+    lib_keys = {"partition", "invariant_code"}  # node attributes that are the library's own bookkeeping (calibrated at install time)
+    scratch_keys = {"explored"}  # node attributes serialize_molecule itself adds to a fresh argument (calibrated at install time)
     depth = 0  # > 0 while inside a monitor's own shadow execution
 
 
@@ -77,14 +96,14 @@ def _graph_json(g, cap=60):
 
 
 def color_of(d):
-    return (d["atomic_number"], d.get("mass", 0) or 0, d.get("rad", 0) or 0)
+    return (d[K.ATOMIC_NUMBER], d.get(K.MASS, 0) or 0, d.get(K.RAD, 0) or 0)
 
 
 # =====================================================================================================
 # canonicalize_molecule
 
 def _node_map(r):
-    return {v: (d.get("element_symbol"), d.get("mass"), d.get("rad"), d.get("partition")) for v, d in r.nodes(data=True)}
+    return {v: (d.get(K.ELEMENT_SYMBOL), d.get(K.MASS) or 0, d.get(K.RAD) or 0, d.get(K.PARTITION)) for v, d in r.nodes(data=True)}
 
 
 def _edge_set(r):
@@ -190,7 +209,7 @@ def _aut_generators(colors, edges):
 
 def check_c13(m, result):
     _mon("c13_classes")
-    cls = {v: d.get("partition") for v, d in result.nodes(data=True)}
+    cls = {v: d.get(K.PARTITION) for v, d in result.nodes(data=True)}
     col = {v: color_of(d) for v, d in result.nodes(data=True)}
     by = {}
     for v, c in cls.items():
@@ -242,12 +261,12 @@ def check_c13(m, result):
     # label independence through the tag bijection
     if n <= SHADOW_MAX_N and all(TAG in d for _, d in m.nodes(data=True)):
         canon = S.orig["canonicalize_molecule"]
-        t1 = {d[TAG]: d.get("partition") for _, d in result.nodes(data=True)}
+        t1 = {d[TAG]: d.get(K.PARTITION) for _, d in result.nodes(data=True)}
         for k in range(S.k_relabel):
             m2, perm = harness_relabel(m, S.rng)
             r2 = canon(m2)
             _mon("c13_label_independence")
-            t2 = {d[TAG]: d.get("partition") for _, d in r2.nodes(data=True)}
+            t2 = {d.get(TAG): d.get(K.PARTITION) for _, d in r2.nodes(data=True)}
             if t1 != t2:
                 bad = [t for t in t1 if t1[t] != t2.get(t)][:5]
                 return {"what": "class of an atom depends on numbering/order", "tags": bad,
@@ -345,7 +364,7 @@ def check_c03(m, result):
 
 def check_c12_ser(m, result, old_fp):
     _mon("c12_serialize")
-    now = fingerprint(m, ignore_explored_false=True)
+    now = fingerprint(m, ignore_keys=S.scratch_keys)
     if now != old_fp:
         return {"what": "serialize_molecule altered its argument beyond the scratch flag", "before": repr(old_fp)[:500], "after": repr(now)[:500]}
     try:
@@ -354,13 +373,13 @@ def check_c12_ser(m, result, old_fp):
         return {"what": "second serialize call on the same object raised", "exception": f"{type(e).__name__}: {e}"[:200], "first_result": result[:200]}
     if again != result:
         return {"what": "second serialize call on the same object gave a different string", "s1": result[:300], "s2": again[:300]}
-    if fingerprint(m, ignore_explored_false=True) != old_fp:
+    if fingerprint(m, ignore_keys=S.scratch_keys) != old_fp:
         return {"what": "serialize_molecule altered its argument on the repeated call"}
     return None
 
 
 def _ser_snapshot(m):
-    return fingerprint(m, ignore_explored_false=True)
+    return fingerprint(m, ignore_keys=S.scratch_keys)
 
 
 def _ser_post(m, result, OLD):
@@ -393,20 +412,20 @@ def check_c09(graph, result):
     _mon("c09_writer")
     read = S.orig["graph_from_molfile_text"]
     lines = result.split("\n")
+    while len(lines) > 1 and lines[-1] == "":
+        lines.pop()  # a file may or may not end with a newline
     ctx = S.ctx
     for ln in lines:
         if ctx is not None and len(ln) >= 70:
             ctx.seen("physical_line_len", len(ln))
         if len(ln) > 79:
             return {"what": "physical line longer than 80 characters incl. newline", "length": len(ln), "line": ln, "input": _graph_json(graph)}
-        if "\r" in ln:
-            return {"what": "stray CR"}
     # observability: logical line lengths, wraps per logical line, character classes around each wrap
     if ctx is not None:
         logical, wraps = "", 0
         for k, ln in enumerate(lines[4:-1], start=4):
             body = ln[7:]
-            if len(ln) == 79 and ln.endswith("-") and k + 1 < len(lines) - 1 and lines[k + 1].startswith("M  V30 "):
+            if ln.endswith("-") and k + 1 < len(lines) - 1 and lines[k + 1].startswith("M  V30 "):
                 before, after = ln[-2], lines[k + 1][7:8]
                 cls = ("after-minus" if before == "-" else "before-blank" if after == " " else "after-blank" if before == " "
                        else "in-number" if (before.isdigit() or before == ".") and (after.isdigit() or after == ".")
@@ -422,7 +441,8 @@ def check_c09(graph, result):
             ctx.seen("wraps_per_logical_line", min(wraps, 3))
             logical, wraps = "", 0
     n, ne = graph.number_of_nodes(), graph.number_of_edges()
-    if len(lines) < 9 or lines[3].rstrip().split(" ")[-1] != "V3000" or lines[-1] != "M  END" or lines[4] != "M  V30 BEGIN CTAB" or lines[-2] != "M  V30 END CTAB":
+    if (len(lines) < 9 or lines[3].rstrip().split(" ")[-1] != "V3000" or lines[-1].rstrip() != "M  END" or lines[4].split() != ["M", "V30", "BEGIN", "CTAB"]
+            or lines[-2].split() != ["M", "V30", "END", "CTAB"]):
         return {"what": "malformed frame", "head": lines[:6], "tail": lines[-2:]}
     if any(not l.startswith("M  V30 ") for l in lines[4:-1]):
         return {"what": "CTAB line without 'M  V30 ' prefix"}
@@ -494,12 +514,12 @@ def check_c16(m, random_seed, result, old_fp):
         f = {}
         for t, (v, d) in tin.items():
             w, d2 = tout[t]
-            if dict(d) != dict(d2):
+            if any(k not in d2 or d2[k] != x for k, x in d.items()):
                 return {"what": "atom attributes not carried along", "tag": t, "before": repr(d), "after": repr(d2)}
             f[v] = w
         ein = {frozenset((f[u], f[v])): dict(d) for u, v, d in m.edges(data=True)}
         eout = {frozenset((u, v)): dict(d) for u, v, d in result.edges(data=True)}
-        if ein != eout:
+        if set(ein) != set(eout) or any(k not in eout[e] or eout[e][k] != x for e, d in ein.items() for k, x in d.items()):
             return {"what": "not an isomorphic image with bond attributes", "input": _graph_json(m)}
     else:
         a = Counter(repr(sorted(d.items(), key=str)) for _, d in m.nodes(data=True))
@@ -648,6 +668,45 @@ def _calibrate_library_keys():
         return set()
 
 
+def _calibrate_scratch_keys():
+    """Keys serialize_molecule ADDS to the nodes of a fresh argument (its scratch namespace, today 'explored'); only added keys qualify."""
+    try:
+        from .oracles.ctab import Atom, Mol
+        g = S.orig["canonicalize_molecule"](bridge.graph_direct(Mol([Atom("C", tag=0), Atom("O", tag=1)], [(0, 1, 1)])))
+        before = set().union(*(set(d) for _, d in g.nodes(data=True)))
+        S.orig["serialize_molecule"](g)
+        after = set().union(*(set(d) for _, d in g.nodes(data=True)))
+        return after - before
+    except Exception:
+        return set()
+
+
+def _shim(orig, inner_factory, n_canon):
+    """The contract is attached to an inner function whose parameter names are the harness's own; the outer function accepts whatever
+    signature the library function has (positional order is what matters), so renaming a parameter in the library cannot break a monitor."""
+    import functools
+    import inspect
+    sig = inspect.signature(orig)
+    pending = []
+
+    def call():
+        args, kwargs = pending[-1]
+        return orig(*args, **kwargs)
+    inner = inner_factory(call)
+
+    @functools.wraps(orig)
+    def outer(*args, **kwargs):
+        ba = sig.bind(*args, **kwargs)
+        ba.apply_defaults()
+        vals = list(ba.arguments.values())[:n_canon]
+        pending.append((args, kwargs))
+        try:
+            return inner(*vals)
+        finally:
+            pending.pop()
+    return outer
+
+
 def install(ctx, enabled, mode="raise", k_relabel=2, seed=0):
     """Attach the monitors needed for the property ids in `enabled`."""
     import importlib
@@ -660,19 +719,39 @@ def install(ctx, enabled, mode="raise", k_relabel=2, seed=0):
     S.orig = {}
     for name, modname in TARGETS.items():
         S.orig[name] = getattr(importlib.import_module(modname), name)
-    S.lib_keys = {"partition"} | _calibrate_library_keys()
+    K.load()
+    S.lib_keys = {K.PARTITION, K.INVARIANT_CODE} | _calibrate_library_keys()
+    S.scratch_keys = {K.EXPLORED} | _calibrate_scratch_keys()
     new = {}
+
+    def canon_inner(call):
+        def canonicalize_molecule(m):
+            return call()
+        return icontract.snapshot(_canon_snapshot, name="fp")(icontract.ensure(_canon_post, error=_error_m)(canonicalize_molecule))
+
+    def ser_inner(call):
+        def serialize_molecule(m):
+            return call()
+        return icontract.snapshot(_ser_snapshot, name="fp")(icontract.ensure(_ser_post, error=_error_m)(serialize_molecule))
+
+    def writer_inner(call):
+        def graph_to_molfile(graph, calc_coordinates=False):
+            return call()
+        return icontract.ensure(_writer_post, error=_error_graph)(graph_to_molfile)
+
+    def perm_inner(call):
+        def permute_molecule(m, random_seed=None):
+            return call()
+        return icontract.snapshot(_perm_snapshot, name="fp")(icontract.ensure(_perm_post, error=_error_m)(permute_molecule))
+
     if S.enabled & {"C01", "C04", "C12", "C13"}:
-        new["canonicalize_molecule"] = icontract.snapshot(_canon_snapshot, name="fp")(
-            icontract.ensure(_canon_post, error=_error_m)(S.orig["canonicalize_molecule"]))
+        new["canonicalize_molecule"] = _shim(S.orig["canonicalize_molecule"], canon_inner, 1)
     if S.enabled & {"C03", "C05", "C12"}:
-        new["serialize_molecule"] = icontract.snapshot(_ser_snapshot, name="fp")(
-            icontract.ensure(_ser_post, error=_error_m)(S.orig["serialize_molecule"]))
+        new["serialize_molecule"] = _shim(S.orig["serialize_molecule"], ser_inner, 1)
     if "C09" in S.enabled:
-        new["graph_to_molfile"] = icontract.ensure(_writer_post, error=_error_graph)(S.orig["graph_to_molfile"])
+        new["graph_to_molfile"] = _shim(S.orig["graph_to_molfile"], writer_inner, 2)
     if "C16" in S.enabled:
-        new["permute_molecule"] = icontract.snapshot(_perm_snapshot, name="fp")(
-            icontract.ensure(_perm_post, error=_error_m)(S.orig["permute_molecule"]))
+        new["permute_molecule"] = _shim(S.orig["permute_molecule"], perm_inner, 2)
     if "C10" in S.enabled:
         new["graph_from_tucan"] = _make_parse_wrapper(S.orig["graph_from_tucan"])
     S.rebound = {}
